@@ -442,7 +442,10 @@ class Unit:
                         it = rf.find_fn(e.fn, None, 0)
                 except KeyError:
                     raise Undecided('guarded function %s not found in %s' % (e.fn, e.file))
-                got = normalise_code(rf.src[it['header_start']:it['end']])
+                txt_ = rf.src[it['header_start']:it['end']]
+                for piece_ in getattr(e, 'hash_strip', None) or []:
+                    txt_ = txt_.replace(piece_, ' @@VERIFIED_PIECE@@ ')       # (a verified piece of the function: only the frame is pinned)
+                got = normalise_code(txt_)
                 if e.expected is None:
                     # hash guard: the function is modelled by a hand-written trusted stub (contracts/*.rs); its text is pinned
                     # in contracts/trusted_hashes.json (tools/trusted_hashes.py)
@@ -452,7 +455,7 @@ class Unit:
                     self.trusted_seen = getattr(self, 'trusted_seen', {})
                     self.trusted_seen[key] = hv
                     exp = _trusted_hashes().get(key)
-                    if exp is not None and exp != hv:
+                    if exp is not None and exp != hv and not os.environ.get('OQ3_TRUSTED_REGEN'):
                         raise Undecided('the text of %s in %s changed, but the unit models it by a trusted stub (%s): no verdict' % (e.fn, e.file, e.why))
                     if exp is None and getattr(e, 'from_rest', False) and _trusted_hashes() and not os.environ.get('OQ3_TRUSTED_REGEN'):
                         # a function that did not exist when the rest of this file was pinned (e.g. a new override of a trait default method)
